@@ -120,6 +120,8 @@ func tierInt(t string) int {
 func (in *Interp) resetPath(prefix []Decision) {
 	in.pc = in.pc[:0]
 	in.pcSet = map[int]bool{}
+	in.pcEq = map[int]uint64{}
+	in.pcNe = map[int][]uint64{}
 	in.prefix = prefix
 	in.decisions = make([]Decision, 0, len(prefix)+8)
 	in.newWork = nil
@@ -265,9 +267,15 @@ func (in *Interp) runPath(h *ssa.Function, prefix []Decision, sample bool) (res 
 			}
 		}
 	}()
-	// package initialisers of the module (external inits are no-ops)
-	if initFn := h.Pkg.Func("init"); initFn != nil {
+	// package initialisers of the module (external inits are no-ops); the state they leave is
+	// snapshotted once per worker and cloned for later paths when initialisation is purely concrete
+	if in.snap != nil && in.snap.harness == h {
+		in.restoreSnapshot()
+	} else if initFn := h.Pkg.Func("init"); initFn != nil {
 		in.callFn(initFn, nil, nil)
+		if !in.noSnap && len(in.decisions) == 0 && len(in.pc) == 0 && len(in.inputs) == 0 {
+			in.takeSnapshot(h)
+		}
 	}
 	in.traceOn = in.cfg.Trace
 	in.callFn(h, nil, nil)
@@ -372,7 +380,7 @@ func Explore(ld *Loaded, cfg *Config) *RunResult {
 					return
 				}
 				defer sv.Close()
-				in := &Interp{prog: ld.prog, ld: ld, tt: tt, solver: sv, cfg: cfg, maxSteps: cfg.MaxSteps, qcache: map[string]string{}, violCount: map[string]int{}, varCache: map[int][]int{}, varIDs: map[string]int{}}
+				in := &Interp{prog: ld.prog, ld: ld, tt: tt, solver: sv, cfg: cfg, maxSteps: cfg.MaxSteps, qcache: map[string]string{}, ecache: map[string][]int64{}, violCount: map[string]int{}, fnInfos: map[*ssa.Function]*fnInfo{}, fnMetas: map[*ssa.Function]*fnMeta{}, varCache: map[int][]int{}, varIDs: map[string]int{}}
 				for {
 					mu.Lock()
 					for len(work) == 0 && active > 0 && !stop {
